@@ -39,6 +39,29 @@ PROPS = {
         "runs": [
             {"engine": "vt", "quick": 20000, "thorough": 1000000,
              "what": "E-A virtual-time engine, poll interposer with seeded defer decisions"},
+            {"engine": "th", "quick": 1600, "thorough": 100000,
+             "what": "E-T: same scenarios on a 3-worker runtime with seeded noise at the H1 points; overlap flag checked on any thread"},
+        ],
+    },
+    "C02": {
+        "level": "exploration",
+        "technique": "runtime monitoring: client-boundary history (call/ret stamps from one atomic clock, unique (sender,seq) ids, drop tokens) checked offline for at-most-once, real-time FIFO, no-gap, no-leak; thread stress with noise injected inside send_message's lock-free gaps",
+        "level_text": ("Exploration: seeded histories of 1-8 concurrent senders (OS threads in E-T, tasks in E-A) racing each other, "
+                       "self-sending handlers, wrong-typed sends and stop/kill/drain/panic exits; an O(n log n) offline checker "
+                       "decides duplicate/rejected-but-handled/order/gap/leak per history. Held on the histories observed."),
+        "level_note": ("Trusts the logical clock (SeqCst counter taken under the trace mutex), the Probe's Handled logging and drop "
+                       "tokens. One pick in flight at exit is allowed in E-T only through the 'accepted but unhandled => dropped by "
+                       "join completion' rule. Miri slice listed separately when present."),
+        "rule": ("seeded scenario = 1 probe actor, 1-8 senders x 1-40 messages (3 public send APIs), handler scripts that self-send/"
+                 "yield/fail, optional stop|kill|drain racer, optional wrong-typed send. Non-trivial = >= 2 senders and (two sends by "
+                 "different senders overlapped in time, or some send was rejected). Distinct = hash of (accepted count, handled "
+                 "count, sender order of the first 32 handled messages)."),
+        "assumptions": ["history recorded at the client boundary", "a send still open at the end of the history is never treated as failed"],
+        "runs": [
+            {"engine": "th", "quick": 8000, "thorough": 800000,
+             "what": "E-T: sender/terminator OS threads vs actor on a 3-worker runtime, noise at SEND_AFTER_STATUS/ADMIT/ENQUEUE, ADMIT_BEFORE_CAS"},
+            {"engine": "vt", "quick": 16000, "thorough": 1000000,
+             "what": "E-A: sender tasks under seeded poll interposer (await-level interleavings, exact replay)"},
         ],
     },
 }
